@@ -47,9 +47,23 @@ def str_to_number(s: str):
     return f
 
 
+def unjson(v):
+    """JsonDoc -> SQL scalar (JSON scalars) or JSON text (containers)."""
+    o = v.obj
+    if o is None:
+        return 'null'
+    if o is True or o is False:
+        return 'true' if o else 'false'
+    if isinstance(o, (int, float, Decimal, str)):
+        return o
+    return json_dumps(o)
+
+
 def to_number(v):
     if v is None or isinstance(v, (int, float, Decimal)):
         return v
+    if v.__class__ is JsonDoc:
+        return to_number(unjson(v))
     if isinstance(v, str):
         return str_to_number(v)
     if isinstance(v, bytes):
@@ -118,6 +132,8 @@ def compare(a, b, cs=False):
     bn = isinstance(b, (int, float, Decimal))
     if an and bn:
         return -1 if a < b else (1 if a > b else 0)
+    if ta is JsonDoc or tb is JsonDoc:
+        return compare(unjson(a) if ta is JsonDoc else a, unjson(b) if tb is JsonDoc else b, cs)
     if isinstance(a, datetime.date) or isinstance(b, datetime.date):
         return _cmp_temporal(a, b)
     if isinstance(a, bytes) or isinstance(b, bytes):
@@ -318,6 +334,8 @@ def to_str(v):
         return v.strftime('%Y-%m-%d %H:%M:%S') + (f'.{v.microsecond:06d}' if v.microsecond else '')
     if isinstance(v, datetime.date):
         return v.isoformat()
+    if v.__class__ is JsonDoc:
+        return json_dumps(v.obj)
     raise NotSupported(f'string conversion of {type(v).__name__}')
 
 
@@ -334,6 +352,8 @@ def round_half_away(x) -> int:
 def cast_signed(v, unsigned=False):
     if v is None:
         return None
+    if v.__class__ is JsonDoc:
+        v = unjson(v)
     if isinstance(v, str):
         m = re.match(r'\s*[-+]?\d+', v)
         n = int(m.group(0)) if m else 0
